@@ -57,6 +57,8 @@ class World:
 
     def V(self, name):
         name = Sym.resolve(name)
+        if isinstance(name, tuple):
+            return Sym.lin_value(name, self.V)   # pinned to a linear combination of other inputs on the locus under exploration
         if isinstance(name, Fraction):
             return Sym(name)
         if self.values is None:
@@ -460,9 +462,41 @@ def main():
     sats = run.absorb_job(pd)
     for s in sats:
         run.violation('pd-lemma/' + s['name'], 'positive-definiteness lemma %s has a counter-model %s' % (s['name'], s['model']), s)
+    # number-type twin on the real route (sampling, stated as such): the symbolic run's values carry no machine type, so a cast that only
+    # bites for integer-typed input (plyt=1 in a mm system) is outside it; the same laminate given with int and with float numbers
+    try:
+        tw = number_type_twin()
+    except Exception as e:
+        tw = [{'what': 'error', 'error': '%s: %s' % (type(e).__name__, e)}]
+    run.extra['number_type_twin_int_vs_float_inputs'] = {'mismatches': len(tw)}
+    if tw:
+        run.obligations += 1
+        run.violation('number-type-twin/%s' % tw[0].get('what', 'error'), 'read_stack gives different stiffness matrices for integer-typed and float-typed input of the same values: %s' % (tw[:3],),
+                      {'mismatches': tw[:10], 'decided_by': 'float runs of the real read_stack (no solver verdict for this branch)'})
     from ..sym import Sym as _S
     run.extra['float_snaps'] = dict(list(_S.SNAPS.items())[:20])
     return run.finish()
+
+
+def number_type_twin():
+    import numpy as np
+    from compmech.composite.laminate import read_stack
+    bad = []
+    lp_i, lp_f = (140000, 9000, 0.3, 5000, 5000, 4000), (140000., 9000., 0.3, 5000., 5000., 4000.)
+    for name, kw_i, kw_f in (
+            ('plyt=1, three plies', dict(stack=[0, 90, 0], plyt=1, laminaprop=lp_i), dict(stack=[0., 90., 0.], plyt=1., laminaprop=lp_f)),
+            ('plyts=[1,2,2], offset=0', dict(stack=[45, -45, 0], plyts=[1, 2, 2], laminaprop=lp_i, offset=0), dict(stack=[45., -45., 0.], plyts=[1., 2., 2.], laminaprop=lp_f, offset=0.)),
+            ('plyt=2, offset=1/4', dict(stack=[0, 30], plyt=2, laminaprop=lp_i, offset=0.25), dict(stack=[0., 30.], plyt=2., laminaprop=lp_f, offset=0.25)),
+            ('plyt=1, offset=1', dict(stack=[0, 90, 45], plyt=1, laminaprop=lp_i, offset=1), dict(stack=[0., 90., 45.], plyt=1., laminaprop=lp_f, offset=1.)),
+            ('per-ply props, plyts=[1,1,1]', dict(stack=[0, 90, 0], plyts=[1, 1, 1], laminaprops=[lp_i, lp_f, lp_i]), dict(stack=[0., 90., 0.], plyts=[1., 1., 1.], laminaprops=[lp_f] * 3))):
+        li, lf = read_stack(**kw_i), read_stack(**kw_f)
+        for k in ('A', 'B', 'D', 'E', 'ABD', 'ABDE'):
+            a_, b_ = np.asarray(getattr(li, k), dtype=float), np.asarray(getattr(lf, k), dtype=float)
+            if a_.shape != b_.shape or not np.allclose(a_, b_, rtol=1e-12, atol=1e-12 * float(np.abs(b_).max())):
+                bad.append({'what': '%s/%s' % (name, k), 'max_difference': float(np.abs(a_ - b_).max()) if a_.shape == b_.shape else 'shape'})
+        if abs(float(li.t) - float(lf.t)) > 1e-12:
+            bad.append({'what': '%s/t' % name, 'int': float(li.t), 'float': float(lf.t)})
+    return bad
 
 
 def replay(path):
